@@ -67,6 +67,7 @@ func TestSeedRun(t *testing.T) {
 		return
 	}
 	fmt.Printf("seed=%d steps=%d sim=%dms shape=%s nontrivial=%v\n", seed, r.Steps, r.SimNanos/1e6, r.Shape, r.NonTrivial)
+	fmt.Printf("tracehash=%s\n", r.TraceHash)
 	fmt.Printf("case=%s\n", r.Case)
 	for _, l := range r.Trace {
 		fmt.Println(l)
